@@ -10,6 +10,9 @@ mod e1;
 mod e1run;
 mod e2;
 mod e3;
+mod e4;
+mod e5;
+mod e6;
 mod json;
 mod props;
 mod report;
@@ -34,6 +37,16 @@ fn main() {
                 std::process::exit(2);
             }
         }
+    }
+    if args.len() >= 5 && args[1] == "C17-sched-child" {
+        std::process::exit(e5::sched_child(&args[2], args[3].parse().unwrap_or(0), args[4].parse().unwrap_or(1)));
+    }
+    if args.len() >= 6 && args[1] == "C15-child" {
+        let only = args.get(6).and_then(|s| s.parse().ok());
+        std::process::exit(e6::child(&args[2], args[3].parse().unwrap_or(0), args[4].parse().unwrap_or(1), &args[5], only));
+    }
+    if args.len() >= 2 && args[1] == "C15-selftest-oob" {
+        std::process::exit(e6::selftest_oob());
     }
     if args.len() < 3 {
         eprintln!("usage: mc <ID> <quick|thorough> | mc replay <file> | mc selftest");
